@@ -24,7 +24,7 @@ type C07 struct {
 	outOfDomain int
 }
 
-func init() { RegisterChecker("C07", func() Checker { return &C07{} }) }
+func init()               { RegisterChecker("C07", func() Checker { return &C07{} }) }
 func (c *C07) ID() string { return "C07" }
 
 type ratMap map[string]*big.Rat
@@ -399,5 +399,5 @@ func setStr(m proto.Message, field, v string) {
 	}
 }
 
-func protoName(s string) protoreflect.Name { return protoreflect.Name(s) }
+func protoName(s string) protoreflect.Name         { return protoreflect.Name(s) }
 func protoStringValue(v string) protoreflect.Value { return protoreflect.ValueOfString(v) }
